@@ -147,6 +147,7 @@ func (s *Service) CopyWithOptions(options ServiceOptions, targetOptions TargetOp
 	service.rollout = s.rollout
 	service.pauseController = s.pauseController
 	service.rolloutController = s.rolloutController
+	verifEvent("svc-copy", s, service)
 
 	return service, service.initialize()
 }
@@ -163,6 +164,7 @@ func (s *Service) UpdateLoadBalancer(lb *LoadBalancer, slot TargetSlot) *LoadBal
 	defer s.serviceLock.Unlock()
 
 	var replaced *LoadBalancer
+	defer func() { verifEvent("slot", s, int(slot), lb, replaced) }()
 
 	if slot == TargetSlotRollout {
 		replaced = s.rollout
@@ -184,6 +186,7 @@ func (s *Service) SetRolloutSplit(percentage int, allowlist []string) error {
 	}
 
 	s.rolloutController = NewRolloutController(percentage, allowlist)
+	verifEvent("rollout-set", s, percentage)
 	slog.Info("Set rollout split", "service", s.name, "percentage", percentage, "allowlist", allowlist)
 	return nil
 }
@@ -193,6 +196,7 @@ func (s *Service) StopRollout() error {
 	defer s.serviceLock.Unlock()
 
 	s.rolloutController = nil
+	verifEvent("rollout-stop", s)
 	slog.Info("Stopped rollout", "service", s.name)
 	return nil
 }
@@ -284,6 +288,7 @@ func (s *Service) Stop(drainTimeout time.Duration, message string) error {
 	}
 
 	slog.Info("Service stopped", "service", s.name)
+	verifYield("pause:gate-set", s)
 
 	s.Drain(drainTimeout)
 	slog.Info("Service drained", "service", s.name)
@@ -297,6 +302,7 @@ func (s *Service) Pause(drainTimeout time.Duration, pauseTimeout time.Duration) 
 	}
 
 	slog.Info("Service paused", "service", s.name)
+	verifYield("pause:gate-set", s)
 
 	s.Drain(drainTimeout)
 	slog.Info("Service drained", "service", s.name)
@@ -422,8 +428,11 @@ func (s *Service) serviceRequestWithTarget(w http.ResponseWriter, r *http.Reques
 	if s.handlePausedAndStoppedRequests(w, r) {
 		return
 	}
+	verifYield("req:gate-passed", r)
 
 	lb := s.loadBalancerForRequest(r)
+	verifEvent("pick", r, s, lb)
+	verifYield("req:lb-picked", r)
 	lb.ServeHTTP(w, r)
 }
 
@@ -442,6 +451,7 @@ func (s *Service) handlePausedAndStoppedRequests(w http.ResponseWriter, r *http.
 	}
 
 	action, message := s.pauseController.Wait()
+	verifEvent("gate-result", r, s, int(action))
 	switch action {
 	case PauseWaitActionStopped:
 		templateArguments := struct{ Message string }{message}
